@@ -210,7 +210,7 @@ func (p *Path) intrinsic(fn *ssa.Function, args []Value) (Value, bool) {
 			return itoa(a), true
 		}
 		return a, true
-	case "verifTempFile":
+	case "verifTempFile", "verifTempFileWith":
 		return p.nondetVar(constStr(p, args[0], "nondet name"), SStr), true
 	case "verifReadTempFile":
 		return Tuple{mkStr(""), tFalse}, true
